@@ -135,13 +135,16 @@ def c_costed(c):
             return And(*out)
         return f_
 
-    for f in COSTS:
+    # (total_area / total_leak_power are recomputed from the unchanged per-instance values and the current
+    #  hierarchy on every call: that they are right is C26; the property here is about the four costs)
+    KEPT = ["area", "leak_power", "energy", "throughput"]
+    for f in KEPT:
         c.post(f"same_{f}", unchanged([f]))
     c.post("same_actions", unchanged(["actions"]))
     c.post("marks_only_grow", lambda res: ForAll([o], Implies(And(P.alloc0(o), archmodel.is_a(P, o, "Component")), requested_marked(c, o, flags))))
 
     def inv(L):
-        return [(f"same_{f}", unchanged([f])()) for f in COSTS + ["actions", "name"]] + [
+        return [(f"same_{f}", unchanged([f])()) for f in KEPT + ["actions", "name"]] + [
             ("still_marked", ForAll([o], Implies(And(P.alloc0(o), archmodel.is_a(P, o, "Component")), requested_marked(c, o, flags))))]
 
     c.invariant("L0", inv)
